@@ -597,15 +597,19 @@ def r5(prog, rep):
 def r6(prog, rep):
     rep.rule("C12.R6", "read-back by the variable's own column index, one entry per requested key", floor=2)
     f = prog.own_method("SolverWrapper", "get_values")
-    # nested accessor for HiGHS
+    # nested accessor for HiGHS: the function defined under the `external_solver == "highs"` branch (names are free)
     acc = None
-    for n in ast.walk(f.node):
-        if isinstance(n, ast.FunctionDef) and n.name == "_val_of":
-            src = norm(n)
-            if "all_vals" in src:
-                acc = n
-    if acc is None:
-        raise AnalysisError("get_values: HiGHS accessor _val_of not found")
+    vals_name = None
+    for br in [n for n in walk_no_nested(f.node) if isinstance(n, ast.If) and "'highs'" in norm(n.test)]:
+        for st in br.body:
+            if isinstance(st, ast.Assign) and len(st.targets) == 1 and isinstance(st.targets[0], ast.Name) and "get_all_variable_values" in norm(st.value):
+                vals_name = st.targets[0].id
+        for st in br.body:
+            if isinstance(st, ast.FunctionDef) and len(st.args.args) == 1:
+                acc = st
+    if acc is None or vals_name is None:
+        raise AnalysisError("get_values: HiGHS accessor (nested function of the 'highs' branch reading get_all_variable_values()) not found")
+    acc_name = acc.name
     rets = [r for r in ast.walk(acc) if isinstance(r, ast.Return) and r.value is not None]
     ldefs = {}
     for n in ast.walk(acc):
@@ -615,7 +619,7 @@ def r6(prog, rep):
     okidx = False
     for r in rets:
         v = r.value
-        if isinstance(v, ast.Subscript) and norm(v.value) == "all_vals":
+        if isinstance(v, ast.Subscript) and norm(v.value) == vals_name:
             idx = v.slice
             txt = norm(substitute_locals(idx, ldefs))
             if re.fullmatch(r"(getattr\(%s, 'index'(, None)?\)|%s\.index)" % (param, param), txt):
@@ -624,20 +628,15 @@ def r6(prog, rep):
         rep.ok("C12.R6", "SolverWrapper.get_values:index-lookup", "value = all_vals[var.index]", f.loc(acc))
     else:
         rep.violation("C12.R6", "SolverWrapper.get_values:index-lookup", "the HiGHS accessor does not read all_vals at the variable's own column index", f.loc(acc))
-    # result loop: result[key] = f(_val_of(var)) for (key, var) of the pairs
+    # result: {key: F(accessor(var)) for (key, var) of the pairs} - as a loop filling a dict or as a comprehension
+    from sa.mir import comprehensionise
     good = False
-    for n in walk_no_nested(f.node):
-        if isinstance(n, ast.For) and isinstance(n.target, ast.Tuple) and len(n.target.elts) == 2:
-            k, v = [norm(x) for x in n.target.elts]
-            bd = {}
-            for s in n.body:
-                if isinstance(s, ast.Assign) and len(s.targets) == 1 and isinstance(s.targets[0], ast.Name):
-                    bd[s.targets[0].id] = s.value
-            for s in n.body:
-                if isinstance(s, ast.Assign) and isinstance(s.targets[0], ast.Subscript) and norm(s.targets[0].value) == "result" and norm(s.targets[0].slice) == k:
-                    txt = norm(substitute_locals(s.value, bd))
-                    if f"_val_of({v})" in txt:
-                        good = True
+    for n in ast.walk(ast.Module(body=comprehensionise(f.node.body), type_ignores=[])):
+        if isinstance(n, ast.DictComp) and len(n.generators) == 1 and isinstance(n.generators[0].target, ast.Tuple) and len(n.generators[0].target.elts) == 2 and \
+                not n.generators[0].ifs:
+            k, v = [norm(x) for x in n.generators[0].target.elts]
+            if norm(n.key) == k and f"{acc_name}({v})" in norm(n.value):
+                good = True
     if good:
         rep.ok("C12.R6", "SolverWrapper.get_values:one-entry-per-key", "result[key] = value of that key's variable", f.loc())
     else:
